@@ -24,6 +24,7 @@ struct Case {
     req_out: String,
     corr: Option<(String, String)>,
     tie: Option<String>,
+    rentie: Option<String>,
     big_offset: bool,
 }
 
@@ -62,6 +63,7 @@ fn prepare(name: &str, wasm: &[u8], pass: Pass, seed: u64, rounds: usize, gas: u
         req_out: format!("exec {} {} {} {}", seed, rounds, gas, tb),
         corr,
         tie: if pass == Pass::None { Some(format!("elidetie {} || {}", ta, tb)) } else { None },
+        rentie: if pass == Pass::None { Some(format!("rentie {} {} {} {} || {}", seed, rounds, gas, ta, tb)) } else { None },
         big_offset: a.code.iter().any(|b| b.ops.iter().any(|o| {
             o.args.windows(3).any(|w| matches!((&w[0], &w[1], &w[2]), (decode::Arg::Imm(_), decode::Arg::Imm(off), decode::Arg::Ref(decode::Space::Mem, _)) if off.parse::<u64>().map(|v| v >= 1 << 32).unwrap_or(false)))
         })),
@@ -156,6 +158,9 @@ fn judge(cases: Vec<Case>, prop: &str, stats: &mut Stats) {
         }
         if let Some(t) = &c.tie {
             out::corr(&format!("{}.tie", c.name), nontrivial, t, "elide-ok");
+        }
+        if let Some(t) = &c.rentie {
+            out::corr(&format!("{}.ren", c.name), nontrivial, t, "ren-ok");
         }
         // C06: modules whose original instantiation fails are not compared
         if c.pass == Pass::Gc && !oi.starts_with("instantiate: ok") {
